@@ -728,15 +728,15 @@ int file::Handle::readln(char * buf, int n)
   int c = 0, r = 0;
   while (r < n &&  c != '\n')
   {
-    if ((c = ::fgetc(_file)) <= 0)
+    if ((c = ::fgetc(_file)) == EOF)
       break;
     *buf = (char)c;
     ++buf;
     ++r;
   }
-  if (r > 0 && (c >= 0 || c == EOF))
+  if (r > 0)
     return r;
-  return (c < 0 ? c : r);
+  return (c == EOF ? EOF : r);
 }
 
 } /* namespace import */
